@@ -1324,6 +1324,107 @@ async fn gen_event_direct(ctx: &mut Ctx) {
 
 // ------------------------------------------------------------------------------------------------ entry
 
+
+struct RaceVictim;
+impl Process for RaceVictim {
+    async fn handle_message(&mut self, msg: Message) -> edp_node::Result<()> {
+        match msg {
+            Message::Regular { body: OwnedTerm::Atom(a), .. } if a.as_str() == "die" => Err(Error::MailboxClosed),
+            _ => Ok(()),
+        }
+    }
+}
+struct RaceBystander;
+impl Process for RaceBystander {
+    async fn handle_message(&mut self, _msg: Message) -> edp_node::Result<()> {
+        Ok(())
+    }
+}
+
+/// Name operations racing with the exit of the process they are about (seeded change S77: `register` checked that the process
+/// is in the registry BEFORE it locked the names, so the exiting process's sweep of its names could run in between and the name
+/// outlived the process for good). The registry's locks are tokio locks; an uncontended acquisition does not suspend a task,
+/// so on the current-thread runtime the only suspension points inside `register` are the ones the cooperative budget forces:
+/// the racing task first makes `k` look-ups (one unit of budget each), which moves the forced suspension across every lock
+/// acquisition that follows. The verdict is the property's: once the process has left the registry, every name that was
+/// registered for it no longer resolves and can be registered again, whatever the operations answered.
+async fn name_races(ctx: &mut Ctx) {
+    let node = Atom::new("c18race@localhost");
+    let (mut accepted, mut refused) = (0u64, 0u64);
+    for variant in 0..3u32 {
+        for k in 0..=140u32 {
+            let registry = Arc::new(ProcessRegistry::new());
+            let pid = ExternalPid::new(node.clone(), 1000 + k, variant, 1);
+            let handle = edp_node::process::spawn_process(RaceVictim, Mailbox::new(), registry.clone(), pid.clone()).await;
+            registry.insert(pid.clone(), handle.clone()).await;
+            let other = ExternalPid::new(node.clone(), 5000 + k, variant, 1);
+            let other_handle = edp_node::process::spawn_process(RaceBystander, Mailbox::new(), registry.clone(), other.clone()).await;
+            registry.insert(other.clone(), other_handle).await;
+            let name = Atom::new("service");
+            let old = Atom::new("old_name");
+            if variant == 1 {
+                let _ = registry.register(old.clone(), pid.clone()).await;
+            }
+            let answer = {
+                let (registry, pid, name, old) = (registry.clone(), pid.clone(), name.clone(), old.clone());
+                let nobody = Atom::new("nobody");
+                tokio::spawn(async move {
+                    let _ = handle.send(Message::Regular { from: None, body: OwnedTerm::Atom(Atom::new("die")) }).await;
+                    for _ in 0..k {
+                        let _ = registry.whereis(&nobody).await;
+                    }
+                    match variant {
+                        0 => registry.register(name, pid).await.is_ok(),
+                        1 => {
+                            // the process is renamed while it exits
+                            let _ = registry.unregister(&old).await;
+                            registry.register(name, pid).await.is_ok()
+                        }
+                        _ => {
+                            // two names in a row
+                            let a = registry.register(old, pid.clone()).await.is_ok();
+                            let b = registry.register(name, pid).await.is_ok();
+                            a || b
+                        }
+                    }
+                })
+                .await
+                .unwrap_or(false)
+            };
+            if answer { accepted += 1 } else { refused += 1 }
+            let mut rounds = 0;
+            while registry.get(&pid).await.is_some() && rounds < 2000 {
+                rounds += 1;
+                tokio::task::yield_now().await;
+            }
+            for _ in 0..10 {
+                tokio::task::yield_now().await;
+            }
+            ctx.count("name_race_schedules");
+            if registry.get(&pid).await.is_some() {
+                ctx.fail("c18-process-never-left-the-registry", &format!("variant {} k={}", variant, k));
+                continue;
+            }
+            for n in [&name, &old] {
+                let resolves = registry.whereis(n).await;
+                let again = registry.register(n.clone(), other.clone()).await;
+                if resolves.is_some() || again.is_err() {
+                    ctx.fail("c18-name-outlives-process", &format!(
+                        "variant {} k={}: the name operations answered {}; after process {}.{} has left the registry whereis({}) = {:?} and registering the name for a live process answers {:?}",
+                        variant, k, answer, pid.id, pid.serial, n.as_str(), resolves.as_ref().map(|p| (p.id, p.serial)), again.as_ref().map_err(|e| e.to_string())));
+                }
+                let _ = registry.unregister(n).await;
+            }
+        }
+    }
+    ctx.add("name_race_accepted", accepted);
+    ctx.add("name_race_refused", refused);
+    if accepted == 0 || refused == 0 {
+        // the schedules must straddle the exit, otherwise the enumeration proves nothing (not a property failure)
+        ctx.count("name_race_did_not_straddle_the_exit");
+    }
+}
+
 pub fn run(ctx: &mut Ctx) {
     let rt = tokio::runtime::Builder::new_current_thread().enable_all().build().unwrap();
     rt.block_on(async {
@@ -1403,6 +1504,7 @@ pub fn run(ctx: &mut Ctx) {
         }
 
         registry_direct(ctx).await;
+        name_races(ctx).await;
         gen_server_direct(ctx).await;
         gen_event_direct(ctx).await;
         edp_client::verif_hooks::set_yield_hook(None);
